@@ -4,6 +4,7 @@ import ast
 from ..framework import rule
 from ..astutil import dotted, call_name, call_recv, norm, walk_local
 from .. import q
+from .common import enclosing_for
 
 META = {
     "explanation": (
@@ -238,7 +239,7 @@ def _stack_ops(fi):
 
 
 @rule("C05.R3", "C05", "SIB", "pop and rollback undo the same stack components; rollback only removes",
-      min_instances=8)
+      min_instances=8, also=("C02",))
 def r3(ctx, R):
     """CallStack.pop and .rollback both: deque.pop(self), idxstack.pop(), counter -= 1,
     drain refstack under `refstack[-1][0] == self.counter` evaluated after the decrement;
@@ -295,9 +296,55 @@ def r3(ctx, R):
     if not rm:
         R.bad(rb, rb.node, "rollback() does not remove the failed node from the trace graph",
               stmt="remove_node")
-    R.inst("rollback: adds nothing to trace/reference graph")
-    for c in q.calls(rb, name=("add_edge", "add_node", "add_edges_from", "add_nodes_from", "add_path")):
+    R.inst("rollback: the only additions hand the failed node's precedents over to the nearest cached caller")
+    for c in q.calls(rb, name=("add_node", "add_edges_from", "add_nodes_from", "add_path")):
         R.bad(rb, c, "rollback() adds to a dependency graph")
+    adds = q.calls(rb, name="add_edge")
+    TOP = "self[self.idxstack[-1]]"
+    handed = False
+    for c in adds:
+        lp = enclosing_for(rb, c)
+        it = q.origin(rb, lp.iter) if lp is not None else None
+        if isinstance(it, ast.Call) and isinstance(it.func, ast.Name) and it.func.id in ("list", "tuple", "set") and it.args:
+            it = it.args[0]
+        ok = (q.anorm(rb, c.func.value) == "node[OBJ].model.tracegraph" and len(c.args) == 2 and lp is not None
+              and isinstance(lp.target, ast.Name) and norm(c.args[0]) == lp.target.id
+              and q.anorm(rb, c.args[1]) == TOP
+              and isinstance(it, ast.Call) and call_name(it) == "predecessors" and [norm(a) for a in it.args] == ["node"]
+              and q.anorm(rb, it.func.value) == "node[OBJ].model.tracegraph")
+        g = q.guards_of(rb, c)
+        if not ok:
+            R.bad(rb, c, "rollback() adds an edge other than (precedent of the failed node -> nearest cached caller)")
+        elif not {("self", "T"), ("self.idxstack[-1] >= 0", "T"), ("node[OBJ].is_cached", "T")} <= set(g.resolved()):
+            R.bad(rb, c, "precedents are handed over without a cached caller on the stack: guards %s" % sorted(g))
+        elif rm and q.path_between(rb, rm[0], c):
+            R.bad(rb, c, "precedents are read after the failed node was removed (there are none left)")
+        else:
+            handed = True
+    R.inst("rollback: a caller that handles the error inherits the failed node's precedents")
+    if not handed:
+        R.bad(rb, rb.node, "a formula that catches its callee's error keeps no precedent for what the callee had used: "
+                           "after that input changes the fallback value is still served", stmt="hand-over of precedents")
+    R.inst("rollback: references read by the failed frame are re-tagged for the calling frame")
+    rt = q.calls(rb, name="append", recv_endswith="refstack")
+    okr = False
+    for c in rt:
+        a = c.args[0] if c.args else None
+        if isinstance(a, ast.Tuple) and len(a.elts) == 2 and norm(a.elts[0]) == "self.counter - 1" \
+                and ("self", "T") in q.guards_of(rb, c) and o_rb["counter-=1"] and q.dominated(rb, o_rb["counter-=1"], c) \
+                and o_rb["refstack.pop"] and not q.path_between(rb, c, o_rb["refstack.pop"][0]):
+            okr = True
+        else:
+            R.bad(rb, c, "rollback() pushes a reference read that is not (caller's frame index, reference) after the drain")
+    if not okr:
+        R.bad(rb, rb.node, "references read by a failed callee are dropped although a caller may handle the error: the "
+                           "caller is not invalidated when such a reference changes", stmt="re-tag of reference reads")
+    else:
+        # what is re-tagged is what was drained: the popped reference is kept
+        keep = [x for x in walk_local(rb.node) if isinstance(x, ast.Call) and call_name(x) in ("append", "appendleft", "add")
+                and x.args and isinstance(x.args[0], ast.Name) and x.args[0].id == "ref"]
+        if not keep:
+            R.bad(rb, rb.node, "drained reference reads are not kept for the caller", stmt="refs.append(ref)")
     R.inst("rollback: records the node for the error traceback")
     if not q.calls(rb, name="append", recv_endswith="rolledback"):
         R.bad(rb, rb.node, "rollback() does not record the failed node in executor.rolledback",
